@@ -295,10 +295,13 @@ func (o *Obs) obs(sb *strings.Builder, v reflect.Value) {
 		var ents []ent
 		it := v.MapRange()
 		for it.Next() {
-			// keys are pointer-free ("value keys"): observing them allocates no ids
-			ko := &Obs{ids: map[uintptr]int{}}
+			// keys are printed with an id numbering of their own (the keys of the modelled corpus are pointer-free:
+			// none is allocated); memory reached THROUGH a key (pointer keys, keys holding pointers) takes part in the
+			// overlap test like any other
+			ko := &Obs{ids: map[uintptr]int{}, side: o.side}
 			var ks strings.Builder
 			ko.obs(&ks, it.Key())
+			o.Ranges = append(o.Ranges, ko.Ranges...)
 			ents = append(ents, ent{ks.String(), ""})
 		}
 		sort.Slice(ents, func(i, j int) bool { return ents[i].k < ents[j].k })
